@@ -55,8 +55,24 @@ def e0(name):
     return _e0[name]
 
 
+def _family(r):
+    from vf.model import params
+    z = abs(params.BLS_X) if r == params.BLS_R else params.BN_T
+    lam = (z * z - 1) % r if r == params.BLS_R else (36 * z ** 3 + 18 * z * z + 6 * z + 1) % r
+    out = set()
+    for base in (z, z * z, z * z - 1, lam, 6 * z + 2):
+        for k in (1, 2, 31415926535):
+            v = (k * base) % r
+            out.update((v, r - v))
+    out.update(((r - 1) // 2, (r + 1) // 2))
+    return sorted(v for v in out if 0 < v < r)
+
+
 def s_scalar(r):
-    return st.one_of(st.sampled_from([0, 1, 2, 3, r - 1, r - 2, r]), scalar_in(1, r - 1), uniform_int(1, r - 1))
+    """0, r (the identity), boundary values, every bit length, uniform, and scalars algebraically related
+    to the curve family parameter."""
+    return st.one_of(st.sampled_from([0, 1, 2, 3, r - 1, r - 2, r]), scalar_in(1, r - 1), uniform_int(1, r - 1),
+                     st.sampled_from(_family(r)))
 
 
 def s_scale(curve, g, opt):
